@@ -332,6 +332,83 @@ fn main() {
             }
             (configs, err)
         }
+        "container" => {
+            // C07 engine B: the real ContentPack reader (cluster cache Mutex<LruCache> of capacity 1,
+            // cluster RwLock raw->plain switch, background decoders, shared FileSource) under loom.
+            // The pack (clusters: compressed{0,1} raw{2,3} compressed{4,5}, 6-byte contents) is
+            // written beforehand by `corpusmc genpack`.
+            let path = opt(&args, "--pack").expect("--pack");
+            let cache: usize = opt(&args, "--cache").map(|x| x.parse().unwrap()).unwrap_or(1);
+            jbk::verif::set_decode_chunk_size(4);
+            let content = |i: u32| -> Vec<u8> { (0..6u8).map(|k| b'A' + (i as u8) * 4 + k % 4).collect() };
+            let ids = [0u32, 1, 2, 4];
+            let full = opt(&args, "--combos").map(|x| x == "full").unwrap_or(false);
+            let mut combos: Vec<(Vec<u32>, Vec<u32>)> = vec![];
+            for a1 in ids {
+                for a2 in ids {
+                    for b1 in ids {
+                        combos.push((vec![a1, a2], vec![b1]));
+                        if full {
+                            for b2 in ids {
+                                let compressed = [a1, a2, b1, b2].iter().filter(|x| **x != 2).count();
+                                if compressed <= 3 {
+                                    combos.push((vec![a1, a2], vec![b1, b2]));
+                                }
+                            }
+                        }
+                    }
+                }
+            }
+            let shard: usize = opt(&args, "--shard").and_then(|s| s.parse().ok()).unwrap_or(0);
+            let shards: usize = opt(&args, "--shards").and_then(|s| s.parse().ok()).unwrap_or(1);
+            let mut err = None;
+            let mut configs = 0;
+            for (ci, (a, b)) in combos.iter().enumerate() {
+                if ci % shards != shard {
+                    continue;
+                }
+                configs += 1;
+                let (a2, b2, p2) = (a.clone(), b.clone(), path.clone());
+                let r = model(bound, move || {
+                    EXECUTIONS.fetch_add(1, Ordering::Relaxed);
+                    let fs = jbk::FileSource::open(&p2).expect("open");
+                    let pack = Arc::new(jbk::reader::ContentPack::new(jbk::Reader::from(fs)).expect("content pack"));
+                    pack.set_cluster_cache_size_verif(cache);
+                    let read = move |pack: &jbk::reader::ContentPack, i: u32, k: usize| {
+                        let want: Vec<u8> = (0..6u8).map(|x| b'A' + (i as u8) * 4 + x % 4).collect();
+                        let region = pack.get_content(jbk::ContentIdx::from(i)).expect("get_content").expect("content exists");
+                        assert_eq!(region.size().into_u64(), 6, "content {i} size");
+                        if k % 2 == 0 {
+                            let mut v = vec![];
+                            region.stream().read_to_end(&mut v).expect("stream");
+                            assert_eq!(v, want, "content {i} streamed");
+                        } else {
+                            let s = region.get_slice(jbk::Offset::new(1), 4).expect("get_slice");
+                            assert_eq!(&s[..], &want[1..5], "content {i} sliced");
+                        }
+                    };
+                    let (pb, bb) = (pack.clone(), b2.clone());
+                    let h = loom::thread::Builder::new()
+                        .stack_size(0x80000)
+                        .spawn(move || {
+                            for (k, i) in bb.iter().enumerate() {
+                                read(&pb, *i, k + 1);
+                            }
+                        })
+                        .unwrap();
+                    for (k, i) in a2.iter().enumerate() {
+                        read(&pack, *i, k);
+                    }
+                    h.join().unwrap();
+                });
+                let _ = &content;
+                if let Err(e) = r {
+                    err = Some(format!("reader A contents {a:?}, reader B contents {b:?}, cache of {cache}: {e}"));
+                    break;
+                }
+            }
+            (configs, err)
+        }
         "file" => {
             // two threads read different offsets of one FileSource
             let path = opt(&args, "--file").expect("--file");
